@@ -232,6 +232,12 @@ def optimizeStep (solve : State α → Option (Answer α)) (εA thr : α) (s : S
     | .error _ => none
     | .ok r => some r
 
+/-- `max_iter is None or n_iter <= max_iter`. -/
+def withinLimit (maxIter : Option Nat) (nIter : Nat) : Bool :=
+  match maxIter with
+  | none => true
+  | some k => decide (nIter ≤ k)
+
 /-- the `while` loop of `glbfloor`, starting at `n_iter`; `fuel` bounds the number of passes when
     `max_iter is None` (running out of fuel = did not return). -/
 def glbLoop (solve : State α → Option (Answer α)) (mustRefine : List (RectAlloc α) → Bool)
@@ -239,7 +245,7 @@ def glbLoop (solve : State α → Option (Answer α)) (mustRefine : List (RectAl
     Nat → Nat → State α → Option (State α)
   | 0, _, _ => none
   | fuel + 1, nIter, s =>
-    if (match maxIter with | none => true | some k => decide (nIter ≤ k)) then
+    if withinLimit maxIter nIter then
       if 1 < nIter then
         if mustRefine s.1 then
           match optimizeStep solve εA thr (refine s.1, s.2) with
